@@ -81,12 +81,17 @@ by_hand.trajectory = []
 
 
 def params_snapshot(ad):
+    """Structural snapshot of get_params(); None and an empty mapping are different parameter values."""
     p = ad.get_params()
+
+    def m(d, f):
+        return "<None>" if d is None else f(d)
+
     return {"symbolic_model_id": id(p["symbolic_model"]),
-            "process_noise": copy.deepcopy({str(k): v for k, v in (p["process_noise"] or {}).items()}),
-            "sensor_models": {s: {str(k): str(v) for k, v in d.items()} for s, d in (p["sensor_models"] or {}).items()},
-            "sensor_noises": copy.deepcopy({s: {str(k): v for k, v in d.items()} for s, d in (p["sensor_noises"] or {}).items()}),
-            "calibration_map": copy.deepcopy({str(k): v for k, v in (p["calibration_map"] or {}).items()}),
+            "process_noise": m(p["process_noise"], lambda d: copy.deepcopy({str(k): v for k, v in d.items()})),
+            "sensor_models": m(p["sensor_models"], lambda d: {s: {str(k): str(v) for k, v in q.items()} for s, q in d.items()}),
+            "sensor_noises": m(p["sensor_noises"], lambda d: copy.deepcopy({s: {str(k): v for k, v in q.items()} for s, q in d.items()})),
+            "calibration_map": m(p["calibration_map"], lambda d: copy.deepcopy({str(k): v for k, v in d.items()})),
             "config": repr(p["config"])}
 
 
